@@ -489,7 +489,7 @@ func (s *Server) handleSetConfig(w http.ResponseWriter, r *http.Request) {
 	}
 
 	// TODO(e.burkov):  Consider prebuilding this set on startup.
-	ourAddrs, err := s.conf.ourAddrsSet()
+	ourAddrs, err := s.ourAddrsSet()
 	if err != nil {
 		// TODO(e.burkov):  Put into openapi.
 		aghhttp.Error(r, w, http.StatusInternalServerError, "getting our addresses: %s", err)
@@ -505,7 +505,7 @@ func (s *Server) handleSetConfig(w http.ResponseWriter, r *http.Request) {
 	}
 
 	restart := s.setConfig(req)
-	s.conf.ConfigModified()
+	s.configModified()
 
 	if restart {
 		err = s.Reconfigure(nil)
@@ -513,6 +513,15 @@ func (s *Server) handleSetConfig(w http.ResponseWriter, r *http.Request) {
 			aghhttp.Error(r, w, http.StatusInternalServerError, "%s", err)
 		}
 	}
+}
+
+// ourAddrsSet returns the set of all the configured listening addresses.  It is
+// safe for concurrent use.
+func (s *Server) ourAddrsSet() (m addrPortSet, err error) {
+	s.serverLock.RLock()
+	defer s.serverLock.RUnlock()
+
+	return s.conf.ourAddrsSet()
 }
 
 // setConfig sets the server parameters.  shouldRestart is true if the server
@@ -650,10 +659,16 @@ func (s *Server) handleTestUpstreamDNS(w http.ResponseWriter, r *http.Request) {
 
 	req.BootstrapDNS = stringutil.FilterOut(req.BootstrapDNS, aghnet.IsCommentOrEmpty)
 
-	opts := &upstream.Options{
-		Timeout:    s.conf.UpstreamTimeout,
-		PreferIPv6: s.conf.BootstrapPreferIPv6,
-	}
+	var opts *upstream.Options
+	func() {
+		s.serverLock.RLock()
+		defer s.serverLock.RUnlock()
+
+		opts = &upstream.Options{
+			Timeout:    s.conf.UpstreamTimeout,
+			PreferIPv6: s.conf.BootstrapPreferIPv6,
+		}
+	}()
 
 	var boots []*upstream.UpstreamResolver
 	opts.Bootstrap, boots, err = newBootstrap(req.BootstrapDNS, s.etcHosts, opts)
@@ -673,8 +688,15 @@ func (s *Server) handleTestUpstreamDNS(w http.ResponseWriter, r *http.Request) {
 
 // handleCacheClear is the handler for the POST /control/cache_clear HTTP API.
 func (s *Server) handleCacheClear(w http.ResponseWriter, _ *http.Request) {
-	s.dnsProxy.ClearCache()
-	s.conf.ClientsContainer.ClearUpstreamCache()
+	if prx := s.proxy(); prx != nil {
+		prx.ClearCache()
+	}
+
+	s.serverLock.RLock()
+	clients := s.conf.ClientsContainer
+	s.serverLock.RUnlock()
+
+	clients.ClearUpstreamCache()
 
 	_, _ = io.WriteString(w, "OK")
 }
@@ -719,7 +741,7 @@ func (s *Server) handleSetProtection(w http.ResponseWriter, r *http.Request) {
 		s.dnsFilter.SetProtectionStatus(protectionReq.Enabled, disabledUntil)
 	}()
 
-	s.conf.ConfigModified()
+	s.configModified()
 
 	aghhttp.OK(w)
 }
@@ -735,7 +757,7 @@ func (s *Server) handleSetProtection(w http.ResponseWriter, r *http.Request) {
 //	-> proxy.handleDNSRequest
 //	-> dnsforward.handleDNSRequest
 func (s *Server) handleDoH(w http.ResponseWriter, r *http.Request) {
-	if !s.conf.TLSAllowUnencryptedDoH && r.TLS == nil {
+	if r.TLS == nil && !s.allowUnencryptedDoH() {
 		aghhttp.Error(r, w, http.StatusNotFound, "Not Found")
 
 		return
@@ -748,6 +770,15 @@ func (s *Server) handleDoH(w http.ResponseWriter, r *http.Request) {
 	}
 
 	s.ServeHTTP(w, r)
+}
+
+// allowUnencryptedDoH returns true if DNS-over-HTTPS requests are allowed over
+// plain HTTP.  It is safe for concurrent use.
+func (s *Server) allowUnencryptedDoH() (ok bool) {
+	s.serverLock.RLock()
+	defer s.serverLock.RUnlock()
+
+	return s.conf.TLSAllowUnencryptedDoH
 }
 
 func (s *Server) registerHandlers() {
